@@ -2,7 +2,7 @@
 import ast
 import time
 
-from ..common import DISCHARGED, LOST, REFUTED, REPO, Obligation, src_hash
+from ..common import DISCHARGED, LOST, REFUTED, REPO, UNKNOWN, Obligation, src_hash
 from . import tables as T
 from .analysis import (FRESH, World, all_field_alias, analyse_world, ctor_cls_field_sources,
                        _dotted)
@@ -423,6 +423,213 @@ def _names_read_before_written(body):
     return read_first, written
 
 
+def schedule_obligations(world, prop):
+    """C06: "the output is bit-identical for every nproc and every order in which worker
+    processes finish".
+
+    * completion-order independence: the loop that consumes futures as they complete may only
+      (a) look the submission index up in the dict that was filled with enumerate() indices when
+      the jobs were submitted, (b) store `future.result()` into the pre-sized result list at that
+      index, (c) drive the progress bar.  Distinct futures have distinct indices, so the final
+      list does not depend on the completion order.  An order-dependent accumulation in that loop
+      (append / extend / `x += ...` / a store at a key not derived from the submission index) is
+      a refutation with the statement as witness; anything else unrecognised is *undecided*.
+    * worker purity: the function run in the workers writes to none of its arguments (with one
+      process the arguments are shared between sources, with several they are pickled copies).
+    * the serial branch and the merge loop of the parallel branch run the same statements on each
+      (label, slice, result) triple, in label order (textual identity up to the names of the
+      loop variables; a difference is undecided, not a refutation)."""
+    rel = 'photutils/segmentation/deblend.py'
+    m = world.modules.get(rel)
+    base = f'effects:{rel}::deblend_sources'
+    fi = m.functions.get('deblend_sources') if m is not None else None
+    if fi is None:
+        return [Obligation(f'{base}/schedule', prop, 'effects', LOST,
+                           detail='deblend_sources not found', functions=[f'{rel}::deblend_sources'])]
+    fn = [f'{fi.target}#{src_hash(ast.dump(fi.node))}']
+    obs = []
+
+    def ob(kind, status, text, detail='', model=None):
+        obs.append(Obligation(f'{base}/{kind}', prop, 'effects', status, backend='effects',
+                              functions=fn, text=text, detail=detail, model=model))
+
+    # ---- (1) completion-order independence
+    text1 = ('futures are consumed in completion order only through results[index_of[future]] = '
+             'future.result() (plus progress-bar calls): the merged output does not depend on the '
+             'order in which workers finish')
+    unordered = [n for n in ast.walk(fi.node) if isinstance(n, ast.For)
+                 and isinstance(n.iter, ast.Call)
+                 and _dotted_name(n.iter.func).split('.')[-1] in ('as_completed', 'imap_unordered')]
+    uses_unordered = [n for n in ast.walk(fi.node) if isinstance(n, ast.Call)
+                      and _dotted_name(n.func).split('.')[-1] in ('as_completed', 'imap_unordered')]
+    if not unordered:
+        if uses_unordered:
+            ob('completion-order-independence', UNKNOWN, text1,
+               'as_completed / imap_unordered used outside a plain for loop')
+        else:
+            ob('completion-order-independence', DISCHARGED, text1
+               + ' (no completion-order iteration in the function)')
+    for loop in unordered:
+        fut = loop.target.id if isinstance(loop.target, ast.Name) else None
+        dname = loop.iter.args[0].id if loop.iter.args and isinstance(loop.iter.args[0], ast.Name) \
+            else None
+        pbars = set()
+        for w in ast.walk(fi.node):
+            if isinstance(w, ast.With):
+                for it in w.items:
+                    if isinstance(it.optional_vars, ast.Name) and isinstance(it.context_expr, ast.Call) \
+                            and _dotted_name(it.context_expr.func).split('.')[-1] in ('tqdm',):
+                        pbars.add(it.optional_vars.id)
+        idx_names = set()
+        bad, unknown = None, None
+        stores = set()
+        for st_ in loop.body:
+            src = ast.unparse(st_)
+            if isinstance(st_, ast.Expr) and isinstance(st_.value, ast.Call) \
+                    and isinstance(st_.value.func, ast.Attribute) \
+                    and isinstance(st_.value.func.value, ast.Name) \
+                    and st_.value.func.value.id in pbars:
+                continue
+            if isinstance(st_, ast.Assign) and len(st_.targets) == 1 \
+                    and isinstance(st_.targets[0], ast.Name) \
+                    and isinstance(st_.value, ast.Subscript) \
+                    and isinstance(st_.value.value, ast.Name) and st_.value.value.id == dname \
+                    and isinstance(st_.value.slice, ast.Name) and st_.value.slice.id == fut:
+                idx_names.add(st_.targets[0].id)
+                continue
+            if isinstance(st_, ast.Assign) and len(st_.targets) == 1 \
+                    and isinstance(st_.targets[0], ast.Subscript) \
+                    and isinstance(st_.targets[0].value, ast.Name):
+                key = st_.targets[0].slice
+                keyed = (isinstance(key, ast.Name) and key.id in idx_names) or (
+                    isinstance(key, ast.Subscript) and isinstance(key.value, ast.Name)
+                    and key.value.id == dname and isinstance(key.slice, ast.Name)
+                    and key.slice.id == fut)
+                val_ok = isinstance(st_.value, ast.Call) and isinstance(st_.value.func, ast.Attribute) \
+                    and st_.value.func.attr == 'result' \
+                    and isinstance(st_.value.func.value, ast.Name) \
+                    and st_.value.func.value.id == fut
+                if keyed and val_ok:
+                    stores.add(st_.targets[0].value.id)
+                    continue
+                if not keyed:
+                    bad = (st_.lineno, src, 'store at a key that is not the submission index')
+                    break
+                unknown = (st_.lineno, src)
+                continue
+            # order-dependent accumulation
+            acc = None
+            for x in ast.walk(st_):
+                if isinstance(x, ast.Call) and isinstance(x.func, ast.Attribute) \
+                        and x.func.attr in ('append', 'extend', 'insert', 'appendleft') \
+                        and isinstance(x.func.value, ast.Name) and x.func.value.id not in pbars:
+                    acc = f'.{x.func.attr}() on {x.func.value.id}'
+                if isinstance(x, ast.AugAssign):
+                    acc = f'augmented assignment to {ast.unparse(x.target)}'
+            if acc:
+                bad = (st_.lineno, src, acc)
+                break
+            unknown = (st_.lineno, src)
+        # the dict must map each future to its enumerate() index
+        inj = False
+        for n in ast.walk(fi.node):
+            if isinstance(n, ast.For) and isinstance(n.iter, ast.Call) \
+                    and _dotted_name(n.iter.func) == 'enumerate' \
+                    and isinstance(n.target, ast.Tuple) and isinstance(n.target.elts[0], ast.Name):
+                ix = n.target.elts[0].id
+                for st_ in n.body:
+                    if isinstance(st_, ast.Assign) and len(st_.targets) == 1 \
+                            and isinstance(st_.targets[0], ast.Subscript) \
+                            and isinstance(st_.targets[0].value, ast.Name) \
+                            and st_.targets[0].value.id == dname \
+                            and isinstance(st_.value, ast.Name) and st_.value.id == ix \
+                            and isinstance(st_.targets[0].slice, ast.Call) \
+                            and _dotted_name(st_.targets[0].slice.func).endswith('.submit'):
+                        inj = True
+        # the container receiving the results must be position-addressed: a pre-sized list; a dict
+        # remembers insertion (= completion) order and leaks it when iterated
+        for rname in sorted(stores):
+            if bad:
+                break
+            defs = [n for n in ast.walk(fi.node) if isinstance(n, ast.Assign)
+                    and any(isinstance(t, ast.Name) and t.id == rname for t in n.targets)]
+            presized = [d for d in defs if isinstance(d.value, ast.BinOp)
+                        and isinstance(d.value.op, ast.Mult) and isinstance(d.value.left, ast.List)]
+            if defs and len(presized) == len(defs):
+                continue
+            isdict = any(isinstance(d.value, ast.Dict) or (
+                isinstance(d.value, ast.Call) and _dotted_name(d.value.func) in
+                ('dict', 'OrderedDict', 'collections.OrderedDict')) for d in defs)
+            it = None
+            for n in ast.walk(fi.node):
+                if isinstance(n, ast.For):
+                    txt = ast.unparse(n.iter)
+                    if any(k in txt for k in (f'{rname}.items()', f'{rname}.values()',
+                                              f'{rname}.keys()')) or txt == rname:
+                        it = (n.lineno, f'for ... in {txt}')
+            if isdict and it:
+                bad = (it[0], it[1], f'{rname} is a dict filled in completion order and iterated in '
+                       'insertion order')
+            else:
+                unknown = unknown or (defs[0].lineno if defs else loop.lineno,
+                                      f'{rname} is not a pre-sized list')
+        if bad:
+            ob('completion-order-independence', REFUTED, text1,
+               f'line {bad[0]}: `{bad[1]}` -- {bad[2]}: the result depends on the order in which '
+               'workers finish', {'line': bad[0], 'statement': bad[1]})
+        elif unknown or not inj or fut is None or dname is None:
+            why = (f'unrecognised statement at line {unknown[0]}: `{unknown[1]}`' if unknown else
+                   'the future -> index dictionary is not filled with enumerate() indices at submit')
+            ob('completion-order-independence', UNKNOWN, text1, why)
+        else:
+            ob('completion-order-independence', DISCHARGED, text1)
+
+    # ---- (2) worker purity
+    wf = m.functions.get('_deblend_source')
+    text2 = ('_deblend_source (the function run by the workers) writes to none of its arguments: '
+             'a shared params object (one process) behaves like a pickled copy (several)')
+    if wf is None:
+        ob('worker-purity', UNKNOWN, text2, '_deblend_source not found')
+    else:
+        eff = [e for e in wf.effects.values() if e.origin.startswith('P:')]
+        if eff:
+            e = eff[0]
+            ob('worker-purity', REFUTED, text2,
+               f'in-place write reaching parameter {e.origin[2:]}: {e.desc} ({e.site})',
+               {'origin': e.origin, 'line': e.lineno})
+        else:
+            ob('worker-purity', DISCHARGED, text2)
+
+    # ---- (3) serial branch and parallel merge run the same statements
+    text3 = ('the per-source merge statements of the serial branch and of the parallel branch are '
+             'textually identical (so nproc = 1 and nproc > 1 merge the same way, in label order)')
+
+    def merge_tail(loop):
+        body = list(loop.body)
+        # statements from the first `if warns` to the end
+        for i, st_ in enumerate(body):
+            if isinstance(st_, ast.If) and 'warns' in ast.unparse(st_.test):
+                return [ast.dump(x) for x in body[i:]]
+        return None
+    loops = [n for n in ast.walk(fi.node) if isinstance(n, ast.For) and isinstance(n.iter, ast.Call)
+             and _dotted_name(n.iter.func) == 'zip' and 'labels' in ast.unparse(n.iter)]
+    tails = [t for t in (merge_tail(lp) for lp in loops) if t]
+    if len(tails) == 2 and tails[0] == tails[1]:
+        ob('serial-parallel-merge-identical', DISCHARGED, text3)
+    else:
+        ob('serial-parallel-merge-identical', UNKNOWN, text3,
+           f'{len(tails)} merge loops recognised' + ('' if len(tails) != 2 else '; they differ'))
+    return obs
+
+
+def _dotted_name(n):
+    if isinstance(n, ast.Name):
+        return n.id
+    if isinstance(n, ast.Attribute):
+        return _dotted_name(n.value) + '.' + n.attr
+    return ''
+
+
 def loop_obligations(world, prop):
     obs = []
     for p, rel, qual, needle, accs in INDEPENDENT_LOOPS:
@@ -555,4 +762,6 @@ def run(prop, tier):
     if prop == 'C08':
         obs += ownership_obligations(world, 'C08')
     obs += loop_obligations(world, prop)
+    if prop == 'C06':
+        obs += schedule_obligations(world, prop)
     return obs, info
